@@ -186,17 +186,19 @@ func (r *Record) LessByName(other *Record) bool {
 }
 
 // LessByCoordinate returns true if the receiver sorts by coordinate before other
-// according to the SAM specification.
+// according to the SAM specification: by the order of the records' references
+// in the header, then by position, with unplaced records last. The references
+// of the two records must belong to the same Header.
 func (r *Record) LessByCoordinate(other *Record) bool {
-	rRefName := r.Ref.Name()
-	oRefName := other.Ref.Name()
+	rRefID := r.Ref.ID()
+	oRefID := other.Ref.ID()
 	switch {
-	case oRefName == "*":
+	case oRefID < 0:
 		return true
-	case rRefName == "*":
+	case rRefID < 0:
 		return false
 	}
-	return (rRefName < oRefName) || (rRefName == oRefName && r.Pos < other.Pos)
+	return (rRefID < oRefID) || (rRefID == oRefID && r.Pos < other.Pos)
 }
 
 // String returns a string representation of the Record.
